@@ -63,6 +63,7 @@ def run_path(prog, harness, dec, res, opts):
         res.infeasible += 1
     except Unsupported as e:
         res.unsupported[str(e)[:200]] += 1
+        if os.environ.get('VERIF_DEBUG'): res.errors.append('UNSUPPORTED %s decisions=%s ghost=%s' % (e, list(it.taken), {k: str(v)[:200] for k, v in it.ghost.items() if k in ('kinds', 'proc', 'desc')}))
     except StepLimit as e:
         sh = opts.get('on_steplimit')
         v = sh(it, e) if sh else None
@@ -166,5 +167,7 @@ def explore_many(prog, jobs, parallel=8, nproc_each=2):
     import concurrent.futures as cf
     ctx = multiprocessing.get_context('fork')
     with cf.ProcessPoolExecutor(max_workers=parallel, mp_context=ctx) as ex:
-        for idx, r in ex.map(_job, range(len(jobs))):
+        futs = [ex.submit(_job, i) for i in range(len(jobs))]
+        for fu in cf.as_completed(futs):
+            idx, r = fu.result()
             yield jobs[idx][0], r
